@@ -1003,6 +1003,8 @@ class CoseContext(AbstractContext):
                     msg_dec = cbor2.loads(msg_enc)
                     tgt_blk.setfieldval('btsd', msg_dec[2])
                     # the content is ciphertext now, no decoded layer may be re-encoded over it
+                    # (the type code may have been implied by that layer)
+                    tgt_blk.setfieldval('type_code', tgt_blk.getfieldval('type_code'))
                     tgt_blk.remove_payload()
                     msg_dec[2] = None
 
@@ -1039,6 +1041,8 @@ class CoseContext(AbstractContext):
                     msg_dec = cbor2.loads(msg_enc)
                     tgt_blk.setfieldval('btsd', msg_dec[2])
                     # the content is ciphertext now, no decoded layer may be re-encoded over it
+                    # (the type code may have been implied by that layer)
+                    tgt_blk.setfieldval('type_code', tgt_blk.getfieldval('type_code'))
                     tgt_blk.remove_payload()
                     msg_dec[2] = None
 
